@@ -47,3 +47,12 @@ Definition tw_clone (w : world) (src dst : key) : world :=
   | None => w
   end.
 Definition tw_now (w : world) (t : Z) : world := mkWorld (w_accts w) t.
+
+(* a concrete (practically injective on the fixture) PDA function for the non-vacuity example of props/C08.v;
+   the theorems hold for every `pda` *)
+Definition toy_pda (p : key) (l : list seed_val) : key :=
+  fold_left (fun acc s => acc * 1000003 +
+                          match s with VStr t => 7 + Z.of_nat (String.length t) * 131 +
+                                                  match t with String c _ => Z.of_nat (Ascii.nat_of_ascii c) | EmptyString => 0 end
+                                     | VKey k => 1 + 4 * k | VNum n => 2 + 4 * n end) l (1000000 + p).
+
